@@ -27,7 +27,7 @@ PROPERTIES = {
                        "All arena sizes, all ids: no bound.",
         "assumptions": A_COMMON + [
             "A6 Key's derived Hash/Eq obey vstd's HashMap key model (axiom_key_model)",
-            "A7' process_blocks itself is verified; assumed are only the contracts of its three iterator helpers - first_header, first_header_level, and (rule T14) the statement `let positions = content.iter().positions(..).filter(..).filter(..).collect_vec()`, replaced by a stub that returns the strictly increasing indices of headings from the range's first heading up to range.end - and the contract of `ranges`, which is proved in unit `ranges`; A7-input: every Reader delivers blocks without Div and (T9) without Table; what a list item may start with is NOT assumed: it is an obligation at the call `self.process_section(0..b.len(), b)` in block(), which fails on the unchanged tree (known finding); "
+            "A7' process_blocks is verified whole: first_header / first_header_level are verified on their real bodies (rule T12b unfolds `range.into_iter().find / find_map(closure)` into the counting loop it is) and the statement `let positions = content.iter().positions(..).filter(..).filter(..).collect_vec()` is verified after rule T15 unfolds the chain into the index loop it is, closure bodies unchanged (trusted: that itertools::positions / Iterator::filter / collect_vec and Range::find / find_map mean those loops); only the contract of `ranges` is imported, and it is proved in unit `ranges`; A7-input: every Reader delivers blocks without Div and (T9) without Table; what a list item may start with is NOT assumed: it is an obligation at the call `self.process_section(0..b.len(), b)` in block(), which fails on the unchanged tree (known finding); "
             "everything else of the former blanket assumption A7 (slot free at every primitive call) is now a proof obligation of "
             "SectionsBuilder::{new,process_section,section_block,block}, Graph::from_markdown and insert_from_iter/append_from_visitor; "
             "two known findings (list-head overwrite; item head that section_block has no arm for), two defects repaired (aa1f5f1, ea464ca)",
@@ -72,7 +72,7 @@ PROPERTIES = {
                        "this parse produced. Two known findings (list-head overwrite; item head that section_block has no arm for), one "
                        "defect repaired in /repo (ea464ca: a list without item content adopted the following block). "
                        "Parser, event mapping, process_blocks' body and rendering are not covered.",
-        "assumptions": A_COMMON + ["A7' process_blocks itself is verified; assumed are only the contracts of its three iterator helpers - first_header, first_header_level, and (rule T14) the statement `let positions = content.iter().positions(..).filter(..).filter(..).collect_vec()`, replaced by a stub that returns the strictly increasing indices of headings from the range's first heading up to range.end - and the contract of `ranges`, which is proved in unit `ranges`; A7-input: every Reader delivers blocks without Div and (T9) without Table"],
+        "assumptions": A_COMMON + ["A7' process_blocks is verified whole: first_header / first_header_level are verified on their real bodies (rule T12b unfolds `range.into_iter().find / find_map(closure)` into the counting loop it is) and the statement `let positions = content.iter().positions(..).filter(..).filter(..).collect_vec()` is verified after rule T15 unfolds the chain into the index loop it is, closure bodies unchanged (trusted: that itertools::positions / Iterator::filter / collect_vec and Range::find / find_map mean those loops); only the contract of `ranges` is imported, and it is proved in unit `ranges`; A7-input: every Reader delivers blocks without Div and (T9) without Table"],
     },
     "C07": {
         "units": ["ranges", "arena_forest"], "kani": ["ranges"], "kani_cex": [],
@@ -81,10 +81,10 @@ PROPERTIES = {
                        "block hang every block under the cursor they were given without overwriting an existing link (two known "
                        "findings; a heading after an empty list became a list item - repaired in /repo ea464ca); (iii) Projector::project / project_node render, for trees of any size, an outline that is well-nested "
                        "from level 1 (each heading at most one level deeper than the one before it, heading level = section nesting "
-                       "depth + 1) and restarts at level 1 inside block quotes and list items. Not covered: which split positions are "
-                       "chosen (the positions chain inside process_blocks: assumed stub, T14), project_list_item (assumed contract), the text renderers and list padding.",
+                       "depth + 1) and restarts at level 1 inside block quotes and list items. The split positions process_blocks computes are proved to be exactly the headings of the range at the level of "
+                       "its first heading or above (chain unfolded by rule T15). Not covered: project_list_item (assumed contract), the text renderers and list padding.",
         "assumptions": A_COMMON + [
-            "A7' process_blocks itself is verified; assumed are only the contracts of its three iterator helpers - first_header, first_header_level, and (rule T14) the statement `let positions = content.iter().positions(..).filter(..).filter(..).collect_vec()`, replaced by a stub that returns the strictly increasing indices of headings from the range's first heading up to range.end - and the contract of `ranges`, which is proved in unit `ranges`; A7-input: every Reader delivers blocks without Div and (T9) without Table",
+            "A7' process_blocks is verified whole: first_header / first_header_level are verified on their real bodies (rule T12b unfolds `range.into_iter().find / find_map(closure)` into the counting loop it is) and the statement `let positions = content.iter().positions(..).filter(..).filter(..).collect_vec()` is verified after rule T15 unfolds the chain into the index loop it is, closure bodies unchanged (trusted: that itertools::positions / Iterator::filter / collect_vec and Range::find / find_map mean those loops); only the contract of `ranges` is imported, and it is proved in unit `ranges`; A7-input: every Reader delivers blocks without Div and (T9) without Table",
             "assumed contract of Projector::project_list_item (Option/iterator closure code): called on a projector reset with with(0), "
             "every item it returns restarts the outline at level 1",
             "T11 NodeIter interface with ghost size/height; trees without Table nodes (T9) and fewer than 255 nesting levels",
@@ -108,6 +108,7 @@ PROPERTIES = {
             "A7 that the table handed to to_line_range/to_inline_range is the one line_starts built is by inspection of read() (one assignment); "
             "line_starts itself is checked by Kani for texts up to 8 bytes made of 1- and 2-byte UTF-8 characters only (bounded, not proved)",
             "A9 Kani: table length fixed per harness (1..6 quick, up to 12 thorough); text length fixed per line_starts harness (0..4 quick, up to 8 thorough)",
+            "T16 `P.iter().collect()` in DocumentInline::child_inlines is read as vec_refs(&P): the references to P's elements, in order (trusted std specification); T12 `.iter().find_map(closure)` in link_at_position is read as the index loop it is",
         ],
     },
     "C05": {
